@@ -5,7 +5,7 @@ import Drpc.Bytes
   The verif-tagged `drpcdebug.Event(m, name, id)` calls in manager.go report, in a total order that
   is consistent with the real execution (release-type events are reported before the action,
   acquire-type events after it), what the manager does: semaphore acquire/release, the outcome of
-  waitForPreviousStream, stream creation (begin/end around `sbuf.Set`), the reader's dispatch
+  waitForPreviousStream, stream creation (begin / end around `sbuf.Set`, then offer / retract around the hand-off to manageStreams), the reader's dispatch
   decisions, termination and the transport close.  `allowed` accepts exactly the traces that obey
   the manager's protocol; the theorems below hold for EVERY accepted trace; the e2e suite checks
   that every trace of the real manager is accepted (trace inclusion).
@@ -15,8 +15,8 @@ namespace Drpc.Manager
 inductive Ev where
   | semAcq | semRel
   | prevNone | prevDone (sid : Nat)
-  | newBegin (sid : Nat) | newEnd (sid : Nat)
-  | deliver (sid : Nat) | drop (sid : Nat) | queue (sid : Nat) | wait (sid : Nat)
+  | newOffer (sid : Nat) | newRetract (sid : Nat) | newBegin (sid : Nat) | newEnd (sid : Nat)
+  | deliver (sid : Nat) | drop (sid : Nat) | queue (sid : Nat) | wait (sid : Nat) | orphan (sid : Nat)
   | term | tportClose
   | sfinRecv (sid : Nat)
 deriving Repr, DecidableEq
@@ -27,6 +27,8 @@ structure PS where
   curr : Nat := 0                  -- id of the newest stream whose `sbuf.Set` has completed (0: none)
   pending : Option Nat := none     -- a stream between `stream.new.begin` and `stream.new.end`
   created : List Nat := []         -- ids of all streams created, oldest first
+  offered : List Nat := []         -- streams offered to manageStreams (`stream.new.offer`), after they were published
+  retracted : List Nat := []       -- offered streams that manageStreams did not take (the manager terminated)
   term : Bool := false
   closes : Nat := 0
   sfin : List Nat := []            -- streams whose fin token the manager consumed
@@ -38,30 +40,52 @@ deriving Repr, DecidableEq
 def PS.currs (s : PS) : List Nat := s.curr :: (match s.pending with | some p => [p] | none => [])
 
 /-- the reader loads the pointer some time after its previous event and before reporting this one:
-    it saw one of the values in `window`; afterwards the window restarts from the present values -/
-def PS.afterRead (s : PS) : PS := { s with window := s.currs }
+    it saw one of the values `c` in `window`, and the dispatch decision it reports tells which ones are
+    possible (`ok c`).  The pointer is only ever stored by `sbuf.Set`, by the holder of the stream
+    semaphore, with increasing ids: it never decreases.  So afterwards the window restarts from those
+    present values that are not below some value the reader can have seen. -/
+def PS.afterRead (s : PS) (ok : Nat → Bool) : PS :=
+  { s with window := s.currs.filter (fun v => s.window.any (fun c => ok c && decide (c ≤ v))) }
 
 def allowed (s : PS) : Ev → Option PS
   | .semAcq => if s.sem then none else some { s with sem := true, prevOk := false }
-  | .semRel => if s.sem then some { s with sem := false } else none
+  -- the semaphore is released by manageStream (it has the stream: after the offer) or by the creator
+  -- on an error path (before any creation, or after the retraction): never while a stream is being
+  -- published, and never while the newest published stream has not been offered yet
+  | .semRel => if s.sem ∧ s.pending = none ∧ (s.curr = 0 ∨ s.curr ∈ s.offered) then some { s with sem := false } else none
   | .prevNone => if s.sem ∧ s.curr = 0 ∧ s.pending = none then some { s with prevOk := true } else none
   | .prevDone sid => if s.sem ∧ sid = s.curr ∧ sid ≠ 0 ∧ s.pending = none then some { s with prevOk := true } else none
   | .newBegin sid =>
-    -- a stream is created only by the holder of the semaphore, only after the previous stream was
-    -- seen finished, and with a larger id
+    -- a stream is created and published only by the holder of the semaphore, only after the previous
+    -- stream was seen finished, and with a larger id
     if s.sem ∧ s.prevOk ∧ s.pending = none ∧ s.curr < sid then
       some { s with pending := some sid, prevOk := false, created := s.created ++ [sid], window := s.window ++ [sid] } else none
   | .newEnd sid =>
     -- `sbuf.Set` has returned (it does not store once the buffer is closed by termination; the id is
     -- recorded all the same: no later stream exists on a terminated manager)
     if s.pending = some sid then some { s with pending := none, curr := sid } else none
-  | .deliver sid => if sid ∈ s.window ∧ sid ≠ 0 then some s.afterRead else none
-  | .drop sid => if ∃ c ∈ s.window, sid < c then some s.afterRead else none
-  | .queue sid => if ∃ c ∈ s.window, c < sid then some s.afterRead else none
-  | .wait sid => if ∃ c ∈ s.window, c < sid then some s.afterRead else none
+  | .newOffer sid =>
+    -- the published stream is offered to manageStreams, once, still under the semaphore
+    if s.sem ∧ s.pending = none ∧ s.curr = sid ∧ sid ∈ s.created ∧ sid ∉ s.offered then
+      some { s with offered := s.offered ++ [sid] } else none
+  -- the manager terminated before manageStreams took the stream: nobody manages it (the creator still
+  -- holds the semaphore, and its stream is still the newest one)
+  | .newRetract sid => if s.sem ∧ s.pending = none ∧ s.curr = sid ∧ sid ∈ s.offered ∧ sid ∉ s.retracted ∧ sid ∉ s.sfin then
+      some { s with retracted := s.retracted ++ [sid] } else none
+  -- the reader saw exactly `sid` (`pkt.ID.Stream == curr.ID()`)
+  | .deliver sid => if sid ∈ s.window ∧ sid ≠ 0 then some (s.afterRead (· == sid)) else none
+  -- the reader saw a larger id (`pkt.ID.Stream < curr.ID()`)
+  | .drop sid => if ∃ c ∈ s.window, sid < c then some (s.afterRead (sid < ·)) else none
+  -- the reader saw no stream (0) or a smaller id
+  | .queue sid => if ∃ c ∈ s.window, c < sid then some (s.afterRead (· < sid)) else none
+  | .wait sid => if ∃ c ∈ s.window, c < sid then some (s.afterRead (· < sid)) else none
+  -- a non-invoke packet of a stream whose invoke was never forwarded is dropped instead of waited for
+  -- (same place in the reader's default case: it saw no stream or a smaller id)
+  | .orphan sid => if ∃ c ∈ s.window, c < sid then some (s.afterRead (· < sid)) else none
   | .term => if s.term then none else some { s with term := true }
   | .tportClose => if s.term ∧ s.closes = 0 then some { s with closes := 1 } else none
-  | .sfinRecv sid => if sid ∈ s.created ∧ sid ∉ s.sfin then some { s with sfin := s.sfin ++ [sid] } else none
+  -- manageStream consumed the fin token of the stream it was handed
+  | .sfinRecv sid => if sid ∈ s.offered ∧ sid ∉ s.retracted ∧ sid ∉ s.sfin then some { s with sfin := s.sfin ++ [sid] } else none
 
 /-- run a trace; `none` = rejected -/
 def run : PS → List Ev → Option PS
